@@ -22,6 +22,8 @@ pub fn pool(tag: &str, thorough: bool) -> Vec<Vec<String>> {
         vec!["(import (nolib))".into(), "(car '(1 2))".into(), "(import (scheme base))".into()],
         vec!["(import (util config))".into(), "(config-value)".into(), "(list (config-value) x)".into()],
         vec!["(car '())".into(), "(undefined-thing)".into(), "(+ 1 2)".into()],
+        // a step that evaluates a program FILE of the instance's own directory
+        vec!["FILE:file-step.scm".into(), "fv".into(), "(config-value)".into()],
         // macro definitions inside LIBRARY bodies (a file library of the instance's own directory,
         // and a define-library form met in program text): they belong to that library
         vec!["(import (util macros))".into(), "(list mval (when #t 'w))".into(), "(leak)".into()],
@@ -75,6 +77,7 @@ pub fn setup_dirs() -> (std::path::PathBuf, std::path::PathBuf) {
     for (d, tag) in [(&da, "A"), (&db, "B")] {
         let _ = std::fs::create_dir_all(d.join("util"));
         let _ = std::fs::write(d.join("util/config.sld"), format!("(define-library (util config) (export config-value) (begin (define (config-value) 'config-of-{})))\n", tag));
+        let _ = std::fs::write(d.join("file-step.scm"), "(import (util config))\n(define fv (list 'file (config-value)))\n");
         let _ = std::fs::write(
             d.join("util/macros.sld"),
             format!("(define-library (util macros) (export mval) (import (scheme base)) (begin (define-syntax when (syntax-rules () ((when a ...) 'lib-when-{0}))) (define-syntax leak (syntax-rules () ((leak) 'leaked-{0}))) (define mval (when #t 1))))\n", tag),
@@ -98,14 +101,33 @@ fn strip_location(o: &Outcome) -> String {
     }
 }
 
+/// one step of a program on an instance: a form, or (prefix FILE:) a program file of the instance's
+/// directory run with eval_file
+fn step_eval(it: &mut Interp, form: &str, dir: &std::path::Path) -> Outcome {
+    match form.strip_prefix("FILE:") {
+        None => it.eval(form),
+        Some(name) => {
+            // (written once by setup_dirs, before any execution starts)
+            let p = dir.join(name);
+            let i = &mut it.it;
+            match guarded(|| i.eval_file(p)) {
+                Ok(Ok(Some(v))) => Outcome::Val(crate::drive::obs_of(&v)),
+                Ok(Ok(None)) => Outcome::Val(crate::drive::Obs::NoValue),
+                Ok(Err(e)) => Outcome::Err(crate::drive::classify(&e), e.location),
+                Err(p) => Outcome::Panic(p),
+            }
+        }
+    }
+}
+
 /// program alone on a new thread
 pub fn alone(prog: &[String], dir: &std::path::Path) -> Vec<String> {
     let p = prog.to_vec();
     let dir = dir.to_path_buf();
     on_fresh_thread(move || {
         let mut it = Interp::must_new();
-        it.it.program_directory = Some(dir);
-        p.iter().map(|f| strip_location(&it.eval(f))).collect()
+        it.it.program_directory = Some(dir.clone());
+        p.iter().map(|f| strip_location(&step_eval(&mut it, f, &dir))).collect()
     })
 }
 
@@ -127,18 +149,26 @@ pub fn interleaved_thin(a: &[String], b: &[String], order: &[bool], every: usize
     on_fresh_thread(move || {
         let mut i1 = Interp::must_new();
         let mut i2 = Interp::must_new();
-        i1.it.program_directory = Some(da);
-        i2.it.program_directory = Some(db);
+        i1.it.program_directory = Some(da.clone());
+        i2.it.program_directory = Some(db.clone());
+        // process-wide state an instance must leave alone
+        let cwd = std::env::current_dir().ok();
         let (mut ra, mut rb) = (vec![], vec![]);
         let (mut tf, mut inv) = (vec![], vec![]);
         let (mut ia, mut ib) = (0, 0);
         for (step, first) in order.iter().enumerate() {
             if *first {
-                ra.push(strip_location(&i1.eval(&a[ia])));
+                ra.push(strip_location(&step_eval(&mut i1, &a[ia], &da)));
                 ia += 1;
             } else {
-                rb.push(strip_location(&i2.eval(&b[ib])));
+                rb.push(strip_location(&step_eval(&mut i2, &b[ib], &db)));
                 ib += 1;
+            }
+            if std::env::current_dir().ok() != cwd {
+                inv.push(format!("after step {}: the working directory of the process changed from {:?} to {:?}", step + 1, cwd, std::env::current_dir().ok()));
+                if let Some(c) = &cwd {
+                    let _ = std::env::set_current_dir(c);
+                }
             }
             // H2 on both instances
             for (name, it) in [("instance 1", &i1), ("instance 2", &i2)] {
